@@ -6,7 +6,7 @@ namespace Fastor.Driver.ViewsCmd
 open Fastor.Driver
 open Fastor Fastor.Views
 
-def parseDims (s : String) : List Nat := (s.splitOn "x").filterMap String.toNat?
+private def parseDims (s : String) : List Nat := (s.splitOn "x").filterMap String.toNat?
 
 /-- `first:last:step:isint` per axis, axes separated by `,` -/
 def parseSeqs (s : String) : List (Seq × Bool) :=
@@ -19,7 +19,7 @@ def clsOfName : String → Option Cls
   | "dyn1" => some .dyn1 | "dyn2" => some .dyn2 | "dynN" => some .dynN
   | "fix1" => some .fix1 | "fix2" => some .fix2 | "fixN" => some .fixN | _ => none
 
-def routeName : Route → String
+private def routeName : Route → String
   | .contiguous => "c" | .strided => "s" | .gather => "g"
 
 /-- all multi-indices below `dims`, row-major order -/
